@@ -187,7 +187,8 @@ func PolicyCollections(
 	}, opts.WithName("AuthzDerivedPolicies")...)
 
 	PeerAuthByNamespace := krt.NewIndex(peerAuths, "namespaceWithSelector", func(p *securityclient.PeerAuthentication) []string {
-		if p.Spec.GetSelector() == nil {
+		// a selector without labels is no selector (same as the sidecar path and validation)
+		if len(p.Spec.GetSelector().GetMatchLabels()) == 0 {
 			return []string{p.GetNamespace()}
 		}
 		return nil
